@@ -262,6 +262,18 @@ var qTemplates = []qTemplate{
 		return fmt.Sprintf(`apparmor="%s" operation="%s" profile="docker-default" pid=%d comm="%s" requested_mask="trace" denied_mask="trace" peer="docker-default"`,
 			[]string{"DENIED", "ALLOWED", "STATUS"}[int(v)%3], []string{"ptrace", "open", "exec"}[int(v>>2)%3], 100+int(v>>4)%900, pick(v, 14, qComms))
 	}},
+	// 21 a record with more than one outcome field (success= of the kernel's records and res= of
+	// user-space records, merged or mimicked text), agreeing or not, in either order
+	{tSYSCALL, func(v uint32) string {
+		succ := []string{"yes", "no"}[int(v)&1]
+		res := []string{"success", "failed", "1", "0"}[int(v>>1)&3]
+		a, b := "success="+succ, "res="+res
+		if v&8 != 0 {
+			a, b = b, a
+		}
+		return fmt.Sprintf(`arch=c000003e syscall=%d %s exit=0 items=0 ppid=1 pid=%d auid=%s uid=%s gid=%s ses=%d comm="x" exe="/x" %s`,
+			qSyscalls[int(v>>4)%len(qSyscalls)], a, 100+int(v>>9)%900, pick(v, 12, qUIDs), pick(v, 15, qUIDs), pick(v, 18, qUIDs), 1+int(v>>21)%9, b)
+	}},
 }
 
 func (r QRec) line(seq uint32) (auparse.AuditMessageType, string) {
@@ -338,7 +350,7 @@ func GenQPlan(r *core.Rng) *QPlan {
 				recs = append(recs, QRec{Tmpl: 5, Var: v()})
 			}
 		case 0: // syscall group
-			recs = append(recs, QRec{Tmpl: core.Pick(r, 0, 0, 0, 17), Var: v()})
+			recs = append(recs, QRec{Tmpl: core.Pick(r, 0, 0, 0, 17, 21), Var: v()})
 			if r.Chance(1, 2) {
 				recs = append(recs, QRec{Tmpl: 1, Var: v()})
 			}
@@ -352,7 +364,7 @@ func GenQPlan(r *core.Rng) *QPlan {
 				recs = append(recs, QRec{Tmpl: 4, Var: v()})
 			}
 			if r.Chance(1, 5) {
-				recs = append(recs, QRec{Tmpl: core.Pick(r, 15, 6, 14, 20), Var: v()})
+				recs = append(recs, QRec{Tmpl: core.Pick(r, 15, 6, 14, 20, 21), Var: v()})
 			}
 			if r.Chance(1, 2) {
 				recs = append(recs, QRec{Tmpl: 5, Var: v()})
@@ -365,7 +377,7 @@ func GenQPlan(r *core.Rng) *QPlan {
 				recs[i], recs[j] = recs[j], recs[i]
 			}
 		case 1: // single record
-			recs = append(recs, QRec{Tmpl: core.Pick(r, 7, 8, 9, 10, 11, 12, 13, 19, 6, 20, 0, 5), Var: v()})
+			recs = append(recs, QRec{Tmpl: core.Pick(r, 7, 8, 9, 10, 11, 12, 13, 19, 6, 20, 0, 5, 21), Var: v(), Typ: core.Pick[uint16](r, 0, 0, 1112, 1123, 1300)})
 			if r.Chance(1, 4) {
 				recs[0].Typ = specials[r.Intn(len(specials))]
 			}
